@@ -175,8 +175,40 @@ func (P *Prog) globalID(g *ssa.Global) int {
 	return id
 }
 
+// canonType: a type's name with aliases resolved (golang.org/x/crypto/ed25519.PublicKey is an
+// alias of crypto/ed25519.PublicKey: one dynamic type, one id).
+func canonType(t types.Type) string {
+	t = types.Unalias(t)
+	switch u := t.(type) {
+	case *types.Pointer:
+		return "*" + canonType(u.Elem())
+	case *types.Slice:
+		return "[]" + canonType(u.Elem())
+	case *types.Array:
+		return fmt.Sprintf("[%d]%s", u.Len(), canonType(u.Elem()))
+	case *types.Map:
+		return "map[" + canonType(u.Key()) + "]" + canonType(u.Elem())
+	case *types.Chan:
+		return "chan " + canonType(u.Elem())
+	case *types.Named:
+		s := u.Obj().Name()
+		if u.Obj().Pkg() != nil {
+			s = u.Obj().Pkg().Path() + "." + s
+		}
+		if ta := u.TypeArgs(); ta != nil && ta.Len() > 0 {
+			var as []string
+			for i := 0; i < ta.Len(); i++ {
+				as = append(as, canonType(ta.At(i)))
+			}
+			s += "[" + strings.Join(as, ",") + "]"
+		}
+		return s
+	}
+	return t.String()
+}
+
 func (P *Prog) typeID(t types.Type) int {
-	k := t.String()
+	k := canonType(t)
 	if id, ok := P.typeIDs[k]; ok {
 		return id
 	}
